@@ -147,6 +147,8 @@ def classify(line_in, line_out):
             props.add("C08")
         if "did not have its normal effect" in msg or "lost after the failure" in msg:
             props.add("C08")        # elements dropped with an array that was released before its last stripe had migrated
+        if "without advancing the resize counter" in msg:
+            props |= {"C03", "C01"}
         if "is held after the call" in msg:
             props.add("C04")
         if "size()" in msg or "[count" in msg or "count]" in msg or ", count" in msg:
